@@ -14,7 +14,15 @@ func (h *OwaBiasListener) Identifier() string {
 
 func (h *OwaBiasListener) Merge(params model.MethodParameters, addition model.MethodParameters) model.MethodParameters {
 	oldParams := params.(owaParams)
-	newParams := addition.(owaParams)
+	newParams, ok := addition.(owaParams)
+	if !ok {
+		// OnCriterionAdded reports the new criterion's weight as model.WeightType
+		added := make(model.WeightedCriteria, 0)
+		for id, weight := range addition.(model.WeightType).Weights {
+			added = append(added, model.WeightedCriterion{Criterion: model.Criterion{Id: id, Type: model.Gain}, Weight: weight})
+		}
+		newParams = owaParams{Weights: &added}
+	}
 	return *oldParams.merge(&newParams)
 }
 
